@@ -1,2 +1,89 @@
+"""C01.tables (E9) — the builtin-function tables of the two runtimes agree.
+
+VM side: the builtin table is assembled from `<name>::signature()` calls; each `<name>::machine_function` is the
+VM implementation.  WASM side: `resolve_ext_function` maps the same names (string comparisons) to import fields,
+which are bound by `add_import_from(module, name)` to host closures registered with `Linker::func_wrap`.
+Rules: (a) every builtin name of the VM table is resolvable by the WASM generator (string-compared in
+resolve_ext_function) or lowered by the MIR generator as an intrinsic (its name is compared in mirgen);
+(b) where both sides implement a name with a single f64 method, it is the same method."""
+from .. import roles
+from ..cfg import DefIndex
+from ..facts import KIND, callee, const_str
+from .c01_ops import host_math_imports, short_method, str_of
+
+R = "C01.tables"
+
+
+def strings_compared(fn, facts):
+    """string constants that `fn` compares something with (str == "..." / match on &str)"""
+    out = set()
+    di = DefIndex(fn)
+    for b, t in fn.calls():
+        c = callee(t) or ""
+        n = c.split("::")[-1]
+        if n in ("eq", "ne", "starts_with", "strip_prefix", "ends_with") or c.endswith("str>::eq"):
+            for a in t[5]:
+                s = str_of(fn, di, a)
+                if s is not None:
+                    out.add(s)
+    # match on &str lowers to calls to <str as PartialEq>::eq with promoted/const operands, covered above;
+    # also direct const str operands in any call
+    for b, t in fn.calls():
+        for a in t[5]:
+            s = const_str(a)
+            if s is not None:
+                out.add(s)
+    for b, s in fn.all_stmts():
+        if s[KIND] == "a" and s[5][0] == "use":
+            cs = const_str(s[5][1])
+            if cs is not None:
+                out.add(cs)
+    return out
+
+
 def run(ck, facts, cg, anchors, tier):
-    pass
+    ck.rule(R, "every builtin function name of the VM's builtin table is resolvable by the WASM generator or lowered as an intrinsic by the MIR generator; where VM and WASM host both implement a name by a single f64 method it is the same method")
+    lang = facts.crate(roles.LANG)
+    gen = [f for f in lang.fns if f.short.endswith("builtin_functins::generate_builtin_functions")]
+    ck.require(R, len(gen) == 1, "anchor|vm-builtin-table", "generate_builtin_functions not found")
+    res = [f for f in lang.fns if f.short.endswith("WasmGenerator::resolve_ext_function")]
+    ck.require(R, len(res) == 1, "anchor|wasm-resolve", "WasmGenerator::resolve_ext_function not found")
+    if len(gen) != 1 or len(res) != 1:
+        return
+    names = []
+    for b, t in gen[0].calls():
+        c = callee(t) or ""
+        if c.endswith("::signature") and "builtin_functins::" in c:
+            names.append(c.split("::")[-2])
+    ck.floor(R, "vm_builtin_functions", len(names), 30)
+    wasm_names = strings_compared(res[0], facts)
+    ck.floor(R, "wasm_resolvable_names", len(wasm_names), 25)
+    # intrinsic names compared anywhere in mirgen (constants of compiler::intrinsics)
+    intr = set()
+    for f in lang.fns:
+        if "::compiler::mirgen::Context::make_" in f.path and "intrinsic" in f.path:
+            intr |= strings_compared(f, facts)
+    alias = {"mult": "mult", "modulo": "modulo"}
+    imports, field_to_name, host = host_math_imports(facts, ck)
+    for n in sorted(set(names)):
+        key = "name|%s" % n
+        if n in wasm_names or n in intr:
+            ck.ok(R, key, {"builtin": n, "wasm": "import" if n in wasm_names else "intrinsic"})
+        else:
+            ck.bad(R, key, "builtin `%s` is in the VM's builtin table but the WASM generator neither resolves it as an import nor does the MIR generator lower it as an intrinsic: a program calling it is accepted by the VM back end only" % n, gen[0].where())
+    # method agreement
+    n_cmp = 0
+    for n in sorted(set(names)):
+        mf = [f for f in lang.fns if f.short.endswith("builtin_functins::%s::machine_function" % n)]
+        if not mf:
+            continue
+        meths = sorted({short_method(callee(t) or "") for g in facts.family(roles.LANG, mf[0].path) for _, t in g.calls() if short_method(callee(t) or "").startswith("f64::")})
+        h = host.get(("math", n))
+        if len(meths) != 1 or h is None:
+            continue
+        n_cmp += 1
+        if meths[0] == h[0]:
+            ck.ok(R, "method|%s" % n, {"builtin": n, "vm": meths[0], "wasm_host": h[0]})
+        else:
+            ck.bad(R, "method|%s" % n, "builtin `%s` is computed with %s on the VM and with %s by the WASM host function" % (n, meths[0], h[0]), mf[0].where())
+    ck.floor(R, "builtin_methods_compared", n_cmp, 8)
